@@ -522,6 +522,12 @@ def gen_ropt(rng, k):
                 v = str(rng.randrange(2))
             else:
                 v = str(rng.choice([0, 1, 5, 2**40, 2**64 - 1]))
+            if w in "FE" and f != "se" and rng.random() < 0.03:
+                v = "X" + rng.choice(["abc", "-1", "1.5", "", "0x10", "4294967296" if f in ("sc", "ss") else "18446744073709551616"])
+                if f in ("mn", "mx"):
+                    v = "X" + rng.choice(["abc", "-1", "nan", "1e400"])
+                if f == "th":
+                    v = "X" + rng.choice(["a.", "1.x.", "-1.", "1.z.3."])
             src[w].append(f"{f}={v}")
     return f"r{k} #R " + " ".join(f"{w}:" + ",".join(src[w]) for w in "FEPQ") + " #V " + rng.choice(["bare", "eq"])
 
@@ -547,9 +553,9 @@ def ropt_cmd(case):
 
     def val(f, v):
         if f == "th":
-            return ",".join(x for x in v.split(".") if x)
-        if f in ("mn", "mx") and v.startswith("T"):
-            return E.dec(v[1:])
+            return ",".join(x for x in v.lstrip("X").split(".") if x)
+        if v.startswith("X") or (f in ("mn", "mx") and v.startswith("T")):
+            return E.dec(v[1:])     # X: text the value parser refuses; T: decimal seconds
         if f == "se":
             return TF[v]
         return v
